@@ -248,8 +248,8 @@ func c08ExecConn(cc c08.Case, buf []byte) string {
 		c08BRef[c.Target] = b.dispatch(append([]byte(nil), c08BReq[c.Target]...))
 	}
 	if c.Target == "tars" && c08.TarsAbsurdMapCount(buf) {
-		// observation O1 of findings/C08.md: the decode returns after up to a minute; no verdict
-		return "not-run (announced map size >= 2^20) B-same"
+		// findings/C08.md F5: sizes up to 2^24 are executed under the cost oracle, larger ones are not
+		return "not-run (announced map size > 2^24) B-same"
 	}
 	a := c08NewPeer(c.Target) // a fresh connection A for every input
 	aout := a.dispatch(buf)
@@ -306,5 +306,5 @@ func TestVerifC08StreamConn(t *testing.T) {
 			return "", ""
 		},
 		Bound: "protocols bolt, boltv2, dubbo, dubbo-thrift, tars; connection A (fresh per input) receives every corruption of every frame of the codec alphabet (every truncation, length-field value, byte set {0x00,0xFF,^b} (thorough: all 256 values), dangling/trailing bytes - the xcodecs alphabet without the short strings); connection B (one per protocol per process, so state accumulates over all inputs) receives the valid 'request with headers/body' before the first and after every input",
-		Rule:  "real server streamConn.Dispatch on fake connections; scripted receiver answering like the proxy (hijack reply 200 on receive, unknown-code reply on decode error); oracle: B's observation (frame handed up: headers + body; bytes written; close events; unconsumed bytes) after A's garbage equals B's observation before any garbage; outcome = what happened on A (waits|served|error-reply|closed|closed-by-recover|livelock); one Dispatch call handing up more than len(input)+8 frames, or polling the buffer length more than 32*(len(input)+8) times, is cut off by the harness and reported as never returning; a panic on A is counted as recovered by the read loop (assumed mechanism), not reported here; allocation and poison oracles as in xcodecs; tars inputs announcing a map size >= 2^20 in a 4-byte INT are not executed (kind not-run; findings/C08.md O1)"})
+		Rule:  "real server streamConn.Dispatch on fake connections; scripted receiver answering like the proxy (hijack reply 200 on receive, unknown-code reply on decode error); oracle: B's observation (frame handed up: headers + body; bytes written; close events; unconsumed bytes) after A's garbage equals B's observation before any garbage; outcome = what happened on A (waits|served|error-reply|closed|closed-by-recover|livelock); one Dispatch call handing up more than len(input)+8 frames, or polling the buffer length more than 32*(len(input)+8) times, is cut off by the harness and reported as never returning; a panic on A is counted as recovered by the read loop (assumed mechanism), not reported here; allocation and poison oracles as in xcodecs; thread CPU time of one Dispatch round on an input <= 1 KiB <= 100 ms as in xcodecs; tars inputs announcing a map size > 2^24 in a 4-byte INT are not executed (kind not-run; findings/C08.md F5)"})
 }
